@@ -386,12 +386,21 @@ structure Scope where
   other : Nat := 0
   deriving DecidableEq, Repr
 
+/-- `EqualParties` (types/scope.go:518): same length, and every party of the first list has
+an equal party (address, role, optional) in the second. -/
+def equalParties (p1 p2 : List Party) : Bool :=
+  p1.length == p2.length && p1.all fun a => p2.any fun b => a == b
+
+/-- `Scope.Equals` (types/scope.go:38) on the modelled part of a scope. -/
+def Scope.equals (s t : Scope) : Bool :=
+  equalParties s.owners t.owners && s.other == t.other && s.rollup == t.rollup
+
 def orElse (e : Option Err) (k : Except Err Unit) : Except Err Unit :=
   match e with
   | some err => .error err
   | none => k
 
-def discard (r : Except Err (List PartyDetails)) : Except Err Unit :=
+def dropDetails (r : Except Err (List PartyDetails)) : Except Err Unit :=
   match r with
   | .error e => .error e
   | .ok _ => .ok ()
@@ -417,7 +426,7 @@ def validateWriteScope (env : Env) (existing : Option Scope) (proposed : Scope)
   | none => thenSmartContract env msgType signers (.ok [])
   | some ex =>
     if !ex.rollup then
-      if ex != proposed then
+      if !ex.equals proposed then
         thenSmartContract env msgType signers
           (validateAllRequiredSigned env msgType (getPartyAddresses ex.owners) signers)
       else thenSmartContract env msgType signers (.ok [])
@@ -444,9 +453,9 @@ def validateDeleteScope (env : Env) (scope : Scope) (specRoles : Option (List Ro
 def validateScopeUpdateSigners (env : Env) (msgType : MsgType) (existing : Scope)
     (specRoles : List Role) (signers : List Addr) : Except Err Unit :=
   if !existing.rollup then
-    discard (validateSignersWithoutParties env msgType (getPartyAddresses existing.owners) signers)
+    dropDetails (validateSignersWithoutParties env msgType (getPartyAddresses existing.owners) signers)
   else
-    discard (validateSignersWithParties env msgType existing.owners existing.owners specRoles signers)
+    dropDetails (validateSignersWithParties env msgType existing.owners existing.owners specRoles signers)
 
 /-- `ValidateUpdateScopeOwners` (scope.go:743); with rollup it calls
 `validateAllRequiredPartiesSigned` + `validateSmartContractSigners` (no provenance-role check
@@ -457,7 +466,7 @@ def validateUpdateScopeOwners (env : Env) (msgType : MsgType) (existing : Scope)
   orElse (validateRolesPresent proposedOwners specRoles) <|
   orElse (validateProvenanceRole env (buildPartyDetails [] proposedOwners)) <|
   if !existing.rollup then
-    discard (validateSignersWithoutParties env msgType (getPartyAddresses existing.owners) signers)
+    dropDetails (validateSignersWithoutParties env msgType (getPartyAddresses existing.owners) signers)
   else
     thenSmartContract env msgType signers
       (validateAllRequiredPartiesSigned env msgType existing.owners existing.owners specRoles signers)
@@ -471,16 +480,16 @@ def validateWriteSession (env : Env) (scope : Scope) (existing : Option (List Pa
   if !scope.rollup then
     orElse (validateRolesPresent proposed specRoles) <|
     orElse (validateProvenanceRole env (buildPartyDetails [] proposed)) <|
-    discard (validateSignersWithoutParties env msgType (getPartyAddresses scope.owners) signers)
+    dropDetails (validateSignersWithoutParties env msgType (getPartyAddresses scope.owners) signers)
   else
     orElse (validatePartiesArePresent proposed scope.owners) <|
     match existing with
     | some ex =>
       orElse (validateRolesPresent proposed specRoles) <|
       orElse (validateProvenanceRole env (buildPartyDetails [] proposed)) <|
-      discard (validateSignersWithParties env msgType (ex ++ scope.owners) ex specRoles signers)
+      dropDetails (validateSignersWithParties env msgType (ex ++ scope.owners) ex specRoles signers)
     | none =>
-      discard (validateSignersWithParties env msgType scope.owners proposed specRoles signers)
+      dropDetails (validateSignersWithParties env msgType scope.owners proposed specRoles signers)
 
 /-- `ValidateWriteRecord` (record.go:118), the signer part (:181-211); `specRoles` =
 `recSpec.ResponsibleParties`; `oldSession` = parties of the record's previous session when
@@ -491,12 +500,11 @@ def validateWriteRecord (env : Env) (scope : Scope) (session : List Party)
   let msgType := "WriteRecord"
   if !scope.rollup then
     orElse (validateRolesPresent session specRoles) <|
-    let reqSigs := getPartyAddresses session ++
-      (match oldSession with | some os => getPartyAddresses os | none => [])
-    discard (validateSignersWithoutParties env msgType reqSigs signers)
+    let reqSigs := getPartyAddresses session ++ getPartyAddresses (oldSession.getD [])
+    dropDetails (validateSignersWithoutParties env msgType reqSigs signers)
   else
-    let reqParties := scope.owners ++ session ++ (match oldSession with | some os => os | none => [])
-    discard (validateSignersWithParties env msgType reqParties session specRoles signers)
+    let reqParties := scope.owners ++ session ++ oldSession.getD []
+    dropDetails (validateSignersWithParties env msgType reqParties session specRoles signers)
 
 /-- `ValidateDeleteRecord` (record.go:309); `scope = none` when the scope is gone,
 `specRoles = none` when the record specification is gone. -/
@@ -507,11 +515,11 @@ def validateDeleteRecord (env : Env) (scope : Option Scope) (specRoles : Option 
   | none => .ok ()
   | some scope =>
     if !scope.rollup then
-      discard (validateSignersWithoutParties env msgType (getPartyAddresses scope.owners) signers)
+      dropDetails (validateSignersWithoutParties env msgType (getPartyAddresses scope.owners) signers)
     else match specRoles with
-      | none => discard (validateSignersWithoutParties env msgType
+      | none => dropDetails (validateSignersWithoutParties env msgType
           (getRequiredPartyAddresses scope.owners) signers)
-      | some roles => discard (validateSignersWithParties env msgType scope.owners scope.owners
+      | some roles => dropDetails (validateSignersWithParties env msgType scope.owners scope.owners
           roles signers)
 
 end PvModel.Signers
